@@ -204,10 +204,19 @@ class Interp:
             return z3.If(v.b, U.TRUE, U.FALSE)
         if isinstance(v, TupV):
             if v._term is None:
-                c = U.fresh("tup")
                 items = [self.term(i) for i in v.items]
-                U.axioms += [vm.ty(c) == vm.TAG["tuple"], vm.tlen(c) == len(items), vm.slen(c) == len(items)]
-                U.axioms += [vm.titem(c, k) == it for k, it in enumerate(items)]
+                n = len(items)
+                if n == 0:
+                    c = z3.Const("tuple0", V)
+                else:
+                    mk = z3.Function("tuple%d" % n, *([V] * n + [V]))
+                    c = mk(*items)
+                if c.get_id() not in U._misc_done:
+                    U._misc_done.add(c.get_id())
+                    U._wt_keep.append(c)
+                    U.axioms += [vm.ty(c) == vm.TAG["tuple"], vm.tlen(c) == n, vm.slen(c) == n,
+                                 vm.truthy(c) == (n > 0), z3.Not(vm.is_callable(c)), c != U.NONE]
+                    U.axioms += [vm.titem(c, k) == it for k, it in enumerate(items)]
                 v._term = c
             return v._term
         if isinstance(v, Ref):
